@@ -333,6 +333,10 @@ class Builtins:
                 I.raise_exc("IndexError", [], node, fr)
             return
         if isinstance(base, DictV):
+            if fr is not None and fr.abs_loop:
+                # a container that outlives one iteration is written inside a loop over unknown data
+                I.run.event("loop_carried_store", target=base, index=idx, value=v, node=node,
+                            func=(fr.func.qualname if fr.func else ""))
             for i, (k, _) in enumerate(base.pairs):
                 if I.try_equals(idx, k) is True:
                     base.pairs[i] = (k, v)
